@@ -125,3 +125,42 @@ func vMkConfigLoose(name string, n int, index uint64) Config {
 	}
 	return c
 }
+
+//verif:check C08 stubs=env,valuefile,abslog reach=accepted,rejected,end desc="leader.onChangeConfig against requests that drop members outright: from a committed 3-voter configuration, a request that deletes any subset of the existing nodes (and may add up to two new non-voters, possibly to be promoted) is rejected unless it deletes nobody - members leave only through Remove/ForceRemove actions, one voter at a time" bounds="current configuration of 3 plain voters; every subset of deleted nodes; 0..2 new non-voters with or without Promote"
+func VH_C08_onChangeConfig_drops() {
+	r, l, _ := vMkLeader(3, 2, true)
+	cfg := r.configs.Latest
+	for id := uint64(1); id <= 3; id++ {
+		vAssume(cfg.Nodes[id].Voter)
+	}
+	r.configs.Committed = cfg
+	vAssume(r.commitIndex >= l.startIndex && cfg.Index <= r.commitIndex)
+	nc := cfg.clone()
+	dropped := 0
+	for id := uint64(1); id <= 3; id++ {
+		if vChoice(2) == 1 {
+			delete(nc.Nodes, id)
+			dropped++
+		}
+	}
+	for k, add := 0, vChoice(3); k < add; k++ {
+		id := uint64(6 + k)
+		nd := Node{ID: id, Addr: vAddr(int(id))}
+		if vChoice(2) == 1 {
+			nd.Action = Promote
+		}
+		nc.Nodes[id] = nd
+	}
+	t := changeConfig{task: newTask(), newConf: nc}
+	vWatchConfigAppends(r, l)
+	l.onChangeConfig(t)
+	if len(vCfgAppends) > 0 {
+		vReach("accepted")
+		vAssert(dropped == 0, "G1-members-leave-only-through-actions")
+	} else {
+		vReach("rejected")
+		vAssert(isClosed(t.Done()) && t.Err() != nil, "rejected-request-answered-with-an-error")
+	}
+	vCheckConfigAppends("G1d", true)
+	vReach("end")
+}
